@@ -99,6 +99,9 @@ def premises(chk, rng):
     # P5: tuning parameters are frozen outside adaptation epochs (burn-in and posterior transitions are not adaptive)
     from harness import da_driver
     dt = da_driver.engine_traces(["rw", "mh_on"], (0.3, 0.2, 0.9, 25, 0.5), da_driver.SCHEDULES[0], chains=2, seed=chk.seed)
+    # ... and a step size given to HMC / NUTS is what every chain starts (and, without adaptation, stays) with
+    dt += da_driver.engine_traces(["hmc"], (0.8, 0.05, 0.75, 10, 0.5), [(2, 3), (4, 3)], chains=3, seed=chk.seed + 1)
+    dt += da_driver.engine_traces(["nuts"], (0.8, 0.05, 0.75, 10, 0.5), [(4, 3)], chains=3, seed=chk.seed + 2)
     chk.tv("Trace_DA.tla", dt, tag="premise_P5_frozen_tuning", keyfn=lambda r: f"premise:P5:{r.trace['hdr'].get('kernel', '')}:{r.conjunct}")
     # P7: the kernels of a sequence draw from independent random streams (no call's key is a split child of another's)
     from checks import engine_common as EC
